@@ -1,0 +1,478 @@
+//go:build verif
+
+package dna
+
+// Contracts for the verification machinery in /verif (govc). Comments only.
+// State order A, C, G, T (0..3). Floats: exact-real model.
+
+// ---- JC69 (Jukes & Cantor 1969; Yang 2006 eq. 1.3 with 3*lambda = 1) ----
+//@ pure func jc69Q(i int, j int) real = (i == j ? 0.0 - 1.0 : 1.0 / 3.0)
+//@ pure func jc69P(i int, j int, t real) real = (i == j ? 0.25 + 0.75 * exp(0.0 - 4.0 / 3.0 * t) : 0.25 - 0.25 * exp(0.0 - 4.0 / 3.0 * t))
+// the eigen system returned by the code (eigenvectors are not unique; validated by the lemmas jc_LR, jc_RDL)
+//@ pure func jc69Val(k int) real = (k == 0 ? 0.0 : 0.0 - 4.0 / 3.0)
+//@ pure func jc69L(i int, j int) real = sel4(i, 0.25, sel4(j, 0.0 - 0.25, 0.0 - 0.25, 0.75, 0.0 - 0.25), sel4(j, 0.0 - 0.25, 0.75, 0.0 - 0.25, 0.0 - 0.25), sel4(j, 0.75, 0.0 - 0.25, 0.0 - 0.25, 0.0 - 0.25))
+//@ pure func jc69R(i int, j int) real = sel4(i, sel4(j, 1.0, 0.0, 0.0, 1.0), sel4(j, 1.0, 0.0, 1.0, 0.0), sel4(j, 1.0, 1.0, 0.0, 0.0), sel4(j, 1.0, 0.0 - 1.0, 0.0 - 1.0, 0.0 - 1.0))
+//@ pure func jc69LR(i int, j int) real = jc69L(i, 0) * jc69R(0, j) + jc69L(i, 1) * jc69R(1, j) + jc69L(i, 2) * jc69R(2, j) + jc69L(i, 3) * jc69R(3, j)
+//@ pure func jc69RDL(i int, j int) real = jc69R(i, 0) * jc69Val(0) * jc69L(0, j) + jc69R(i, 1) * jc69Val(1) * jc69L(1, j) + jc69R(i, 2) * jc69Val(2) * jc69L(2, j) + jc69R(i, 3) * jc69Val(3) * jc69L(3, j)
+//@ pure func jc69Eig(i int, j int, t real) real = jc69R(i, 0) * exp(jc69Val(0) * t) * jc69L(0, j) + jc69R(i, 1) * exp(jc69Val(1) * t) * jc69L(1, j) + jc69R(i, 2) * exp(jc69Val(2) * t) * jc69L(2, j) + jc69R(i, 3) * exp(jc69Val(3) * t) * jc69L(3, j)
+
+//@ func (*JCModel).Pij
+//@   props C18 C19
+//@   ensures result == jc69P(i, j, l)
+//@   modifies nothing
+
+//@ func (*JCModel).Eigens
+//@   props C18 C19
+//@   ensures err == nil && len(val) == 4 && msq(leftvectors, 4) && msq(rightvectors, 4)
+//@   ensures forall k :: in4(k) ==> val[k] == jc69Val(k)
+//@   ensures forall a, b :: in4(a) && in4(b) ==> mel(leftvectors, a, b) == jc69L(a, b)
+//@   ensures forall a, b :: in4(a) && in4(b) ==> mel(rightvectors, a, b) == jc69R(a, b)
+//@   ensures fresh(val) && fresh(leftvectors) && fresh(rightvectors)
+//@   modifies nothing
+
+//@ lemma jc_LR(i int, j int)
+//@   props C18
+//@   requires in4(i) && in4(j)
+//@   ensures jc69LR(i, j) == (i == j ? 1.0 : 0.0)
+//@ lemma jc_RDL(i int, j int)
+//@   props C18
+//@   requires in4(i) && in4(j)
+//@   ensures jc69RDL(i, j) == jc69Q(i, j)
+
+// Markov properties of the JC69 transition probabilities (stationary distribution 1/4 each)
+//@ pure func jc69Row(i int, t real) real = jc69P(i, 0, t) + jc69P(i, 1, t) + jc69P(i, 2, t) + jc69P(i, 3, t)
+//@ pure func jc69CK(i int, j int, s real, t real) real = jc69P(i, 0, s) * jc69P(0, j, t) + jc69P(i, 1, s) * jc69P(1, j, t) + jc69P(i, 2, s) * jc69P(2, j, t) + jc69P(i, 3, s) * jc69P(3, j, t)
+//@ lemma jc_stochastic(i int, j int, t real)
+//@   props C18
+//@   requires in4(i) && in4(j) && t >= 0.0
+//@   ensures jc69Row(i, t) == 1.0
+//@   ensures 0.0 <= jc69P(i, j, t) && jc69P(i, j, t) <= 1.0
+//@   ensures i != j ==> jc69P(i, j, t) < 0.25            // never beyond the stationary frequency
+//@ lemma jc_identity(i int, j int)
+//@   props C18
+//@   requires in4(i) && in4(j)
+//@   ensures jc69P(i, j, 0.0) == (i == j ? 1.0 : 0.0)
+//@ lemma jc_semigroup(i int, j int, s real, t real)
+//@   props C18
+//@   requires in4(i) && in4(j)
+//@   requires exp(0.0 - 4.0 / 3.0 * (s + t)) == exp(0.0 - 4.0 / 3.0 * s) * exp(0.0 - 4.0 / 3.0 * t)      // exp(a+b) = exp(a)exp(b), instance
+//@   ensures jc69P(i, j, s + t) == jc69CK(i, j, s, t)
+//@ lemma jc_reversible(i int, j int, t real)
+//@   props C18
+//@   requires in4(i) && in4(j)
+//@   ensures 0.25 * jc69P(i, j, t) == 0.25 * jc69P(j, i, t)
+//@   ensures 0.25 * jc69Q(i, j) == 0.25 * jc69Q(j, i)
+//@ lemma jc_rate_normalised(i int)
+//@   props C18
+//@   requires in4(i)
+//@   ensures jc69Q(i, 0) + jc69Q(i, 1) + jc69Q(i, 2) + jc69Q(i, 3) == 0.0
+//@   ensures 0.0 - (0.25 * jc69Q(0, 0) + 0.25 * jc69Q(1, 1) + 0.25 * jc69Q(2, 2) + 0.25 * jc69Q(3, 3)) == 1.0
+// distance to the stationary distribution is bounded by the decaying exponential (convergence as t grows)
+//@ lemma jc_converges(i int, j int, t real)
+//@   props C18
+//@   requires in4(i) && in4(j)
+//@   ensures abs(jc69P(i, j, t) - 0.25) <= exp(0.0 - 4.0 / 3.0 * t)
+// the analytical formula equals R exp(Dt) L of the model's own eigen system
+//@ lemma jc_analytic_eq_eigen(i int, j int, t real)
+//@   props C18
+//@   requires in4(i) && in4(j)
+//@   ensures jc69Eig(i, j, t) == jc69P(i, j, t)
+
+// ---- K80 / K2P (Kimura 1980; Yang 2006 eq. 1.7-1.10): transitions A<->G, C<->T at rate alpha, transversions at rate beta,
+// ---- kappa = alpha/beta, one expected substitution per unit time: alpha + 2 beta = 1 ----
+//@ pure func isTs(i int, j int) bool = (i == 0 && j == 2) || (i == 2 && j == 0) || (i == 1 && j == 3) || (i == 3 && j == 1)
+//@ pure func k80Beta(kappa real) real = 1.0 / (kappa + 2.0)
+//@ pure func k80Alpha(kappa real) real = kappa / (kappa + 2.0)
+//@ pure func k80Q(i int, j int, kappa real) real = (i == j ? 0.0 - 1.0 : (isTs(i, j) ? k80Alpha(kappa) : k80Beta(kappa)))
+// e1 = exp(-4 beta t), e2 = exp(-2 (alpha+beta) t)
+//@ pure func k80E1(kappa real, t real) real = exp(0.0 - 4.0 / (kappa + 2.0) * t)
+//@ pure func k80E2(kappa real, t real) real = exp(0.0 - 2.0 * (kappa + 1.0) / (kappa + 2.0) * t)
+//@ pure func k80Pe(i int, j int, e1 real, e2 real) real = (i == j ? 0.25 + 0.25 * e1 + 0.5 * e2 : (isTs(i, j) ? 0.25 + 0.25 * e1 - 0.5 * e2 : 0.25 - 0.25 * e1))
+//@ pure func k80P(i int, j int, kappa real, t real) real = k80Pe(i, j, k80E1(kappa, t), k80E2(kappa, t))
+
+//@ func (*K2PModel).Pij
+//@   props C18 C19
+//@   requires m != nil && m.kappa > 0.0
+//@   ensures result == k80P(i, j, m.kappa, l)
+//@   modifies nothing
+
+// the eigen system returned by the code (validated against the textbook rate matrix by k80_LR, k80_RDL)
+//@ pure func k80Val(k int, kappa real) real = sel4(k, 0.0, 0.0 - 2.0 * (1.0 + kappa) / (kappa + 2.0), 0.0 - 2.0 * (1.0 + kappa) / (kappa + 2.0), 0.0 - 4.0 / (kappa + 2.0))
+//@ pure func k80L(i int, j int) real = sel4(i, 0.25, sel4(j, 0.0, 0.5, 0.0, 0.0 - 0.5), sel4(j, 0.5, 0.0, 0.0 - 0.5, 0.0), sel4(j, 0.25, 0.0 - 0.25, 0.25, 0.0 - 0.25))
+//@ pure func k80R(i int, j int) real = sel4(i, sel4(j, 1.0, 0.0, 1.0, 1.0), sel4(j, 1.0, 1.0, 0.0, 0.0 - 1.0), sel4(j, 1.0, 0.0, 0.0 - 1.0, 1.0), sel4(j, 1.0, 0.0 - 1.0, 0.0, 0.0 - 1.0))
+//@ pure func k80LR(i int, j int) real = k80L(i, 0) * k80R(0, j) + k80L(i, 1) * k80R(1, j) + k80L(i, 2) * k80R(2, j) + k80L(i, 3) * k80R(3, j)
+//@ pure func k80RDL(i int, j int, kappa real) real = k80R(i, 0) * k80Val(0, kappa) * k80L(0, j) + k80R(i, 1) * k80Val(1, kappa) * k80L(1, j) + k80R(i, 2) * k80Val(2, kappa) * k80L(2, j) + k80R(i, 3) * k80Val(3, kappa) * k80L(3, j)
+//@ pure func k80Eig(i int, j int, kappa real, t real) real = k80R(i, 0) * exp(k80Val(0, kappa) * t) * k80L(0, j) + k80R(i, 1) * exp(k80Val(1, kappa) * t) * k80L(1, j) + k80R(i, 2) * exp(k80Val(2, kappa) * t) * k80L(2, j) + k80R(i, 3) * exp(k80Val(3, kappa) * t) * k80L(3, j)
+
+//@ func (*K2PModel).Eigens
+//@   props C18 C19
+//@   requires m != nil && m.kappa > 0.0
+//@   ensures err == nil && len(val) == 4 && msq(leftvectors, 4) && msq(rightvectors, 4)
+//@   ensures forall k :: in4(k) ==> val[k] == k80Val(k, m.kappa)
+//@   ensures forall a, b :: in4(a) && in4(b) ==> mel(leftvectors, a, b) == k80L(a, b)
+//@   ensures forall a, b :: in4(a) && in4(b) ==> mel(rightvectors, a, b) == k80R(a, b)
+//@   ensures fresh(val) && fresh(leftvectors) && fresh(rightvectors)
+//@   modifies nothing
+
+//@ func (*K2PModel).InitModel
+//@   props C18
+//@   requires m != nil
+//@   ensures m.kappa == kappa
+//@   modifies m.kappa
+//@ func NewK2PModel
+//@   props C18
+//@   ensures result != nil && fresh(result) && result.kappa == 1.0
+//@   modifies nothing
+
+//@ lemma k80_LR(i int, j int)
+//@   props C18
+//@   requires in4(i) && in4(j)
+//@   ensures k80LR(i, j) == (i == j ? 1.0 : 0.0)
+//@ lemma k80_RDL(i int, j int, kappa real)
+//@   props C18
+//@   requires in4(i) && in4(j) && kappa > 0.0
+//@   ensures k80RDL(i, j, kappa) == k80Q(i, j, kappa)
+//@ lemma k80_rate_normalised(i int, kappa real)
+//@   props C18
+//@   requires in4(i) && kappa > 0.0
+//@   ensures k80Q(i, 0, kappa) + k80Q(i, 1, kappa) + k80Q(i, 2, kappa) + k80Q(i, 3, kappa) == 0.0
+//@   ensures 0.0 - (0.25 * k80Q(0, 0, kappa) + 0.25 * k80Q(1, 1, kappa) + 0.25 * k80Q(2, 2, kappa) + 0.25 * k80Q(3, 3, kappa)) == 1.0
+//@   ensures k80Alpha(kappa) == kappa * k80Beta(kappa) && k80Alpha(kappa) > 0.0 && k80Beta(kappa) > 0.0
+
+// Markov properties of the K80 transition probabilities (stationary distribution 1/4 each)
+//@ pure func k80Row(i int, e1 real, e2 real) real = k80Pe(i, 0, e1, e2) + k80Pe(i, 1, e1, e2) + k80Pe(i, 2, e1, e2) + k80Pe(i, 3, e1, e2)
+//@ pure func k80CK(i int, j int, a1 real, a2 real, b1 real, b2 real) real = k80Pe(i, 0, a1, a2) * k80Pe(0, j, b1, b2) + k80Pe(i, 1, a1, a2) * k80Pe(1, j, b1, b2) + k80Pe(i, 2, a1, a2) * k80Pe(2, j, b1, b2) + k80Pe(i, 3, a1, a2) * k80Pe(3, j, b1, b2)
+//@ pure func k80H(kappa real, t real) real = exp(0.0 - 2.0 / (kappa + 2.0) * t)       // exp(-2 beta t)
+//@ lemma k80_stochastic(i int, j int, kappa real, t real)
+//@   props C18
+//@   requires in4(i) && in4(j) && kappa > 0.0 && t >= 0.0
+//@   requires k80E1(kappa, t) == k80H(kappa, t) * k80H(kappa, t)           // exp(2a) = exp(a)^2, instance of exp(a+b) = exp(a)exp(b)
+//@   ensures k80Row(i, k80E1(kappa, t), k80E2(kappa, t)) == 1.0
+//@   ensures 0.0 <= k80P(i, j, kappa, t)
+//@   ensures k80P(i, j, kappa, t) <= 1.0
+//@ lemma k80_identity(i int, j int, kappa real)
+//@   props C18
+//@   requires in4(i) && in4(j) && kappa > 0.0
+//@   ensures k80P(i, j, kappa, 0.0) == (i == j ? 1.0 : 0.0)
+//@ lemma k80_semigroup(i int, j int, kappa real, s real, t real)
+//@   props C18
+//@   cases i 0 3
+//@   cases j 0 3
+//@   requires kappa > 0.0
+//@   requires k80E1(kappa, s + t) == k80E1(kappa, s) * k80E1(kappa, t)      // exp(a+b) = exp(a)exp(b), two instances
+//@   requires k80E2(kappa, s + t) == k80E2(kappa, s) * k80E2(kappa, t)
+//@   ensures k80P(i, j, kappa, s + t) == k80CK(i, j, k80E1(kappa, s), k80E2(kappa, s), k80E1(kappa, t), k80E2(kappa, t))
+//@ lemma k80_reversible(i int, j int, kappa real, t real)
+//@   props C18
+//@   requires in4(i) && in4(j) && kappa > 0.0
+//@   ensures 0.25 * k80P(i, j, kappa, t) == 0.25 * k80P(j, i, kappa, t)
+//@   ensures 0.25 * k80Q(i, j, kappa) == 0.25 * k80Q(j, i, kappa)
+//@ lemma k80_converges(i int, j int, kappa real, t real)
+//@   props C18
+//@   requires in4(i) && in4(j) && kappa > 0.0
+//@   ensures abs(k80P(i, j, kappa, t) - 0.25) <= 0.25 * k80E1(kappa, t) + 0.5 * k80E2(kappa, t)
+//@ lemma k80_analytic_eq_eigen(i int, j int, kappa real, t real)
+//@   props C18
+//@   requires in4(i) && in4(j) && kappa > 0.0
+//@   ensures k80Eig(i, j, kappa, t) == k80P(i, j, kappa, t)
+// K80 with kappa = 1 is JC69
+//@ lemma k80_kappa1_is_jc(i int, j int, t real)
+//@   props C18
+//@   requires in4(i) && in4(j)
+//@   ensures k80P(i, j, 1.0, t) == jc69P(i, j, t)
+
+// ---- F84 (Felsenstein 1984; Yang 2006 table 1.1): q_ij = (1 + kappa/pi_Y) pi_j for C<->T, (1 + kappa/pi_R) pi_j for A<->G,
+// ---- pi_j for transversions; normalised to one expected substitution per unit time. Frequencies a, c, g, t (A, C, G, T). ----
+//@ pure func simplex(a real, c real, g real, t real) bool = a > 0.0 && c > 0.0 && g > 0.0 && t > 0.0 && a + c + g + t == 1.0
+//@ pure func pi4(j int, a real, c real, g real, t real) real = sel4(j, a, c, g, t)
+//@ pure func f84mU(i int, j int, a real, c real, g real, t real, kappa real) real = (isTs(i, j) ? ((i == 0 || i == 2) ? (1.0 + kappa / (a + g)) * pi4(j, a, c, g, t) : (1.0 + kappa / (c + t)) * pi4(j, a, c, g, t)) : pi4(j, a, c, g, t))
+//@ pure func f84mOff(i int, a real, c real, g real, t real, kappa real) real = (i == 0 ? 0.0 : f84mU(i, 0, a, c, g, t, kappa)) + (i == 1 ? 0.0 : f84mU(i, 1, a, c, g, t, kappa)) + (i == 2 ? 0.0 : f84mU(i, 2, a, c, g, t, kappa)) + (i == 3 ? 0.0 : f84mU(i, 3, a, c, g, t, kappa))
+//@ pure func f84mMu(a real, c real, g real, t real, kappa real) real = a * f84mOff(0, a, c, g, t, kappa) + c * f84mOff(1, a, c, g, t, kappa) + g * f84mOff(2, a, c, g, t, kappa) + t * f84mOff(3, a, c, g, t, kappa)
+//@ pure func f84mQ(i int, j int, a real, c real, g real, t real, kappa real) real = (i == j ? 0.0 - f84mOff(i, a, c, g, t, kappa) : f84mU(i, j, a, c, g, t, kappa)) / f84mMu(a, c, g, t, kappa)
+// the eigen system returned by the code (validated against the textbook rate matrix by f84_LR, f84_RDL)
+//@ pure func f84mNorm(a real, c real, g real, t real, kappa real) real = 1.0 / (1.0 - a * a - c * c - g * g - t * t + 2.0 * kappa * (c * t / (c + t) + a * g / (a + g)))
+//@ pure func f84mVal(k int, a real, c real, g real, t real, kappa real) real = sel4(k, 0.0, 0.0 - f84mNorm(a, c, g, t, kappa) * (1.0 + kappa), 0.0 - f84mNorm(a, c, g, t, kappa) * (1.0 + kappa), 0.0 - f84mNorm(a, c, g, t, kappa))
+//@ pure func f84mL(i int, j int, a real, c real, g real, t real) real = sel4(i, sel4(j, a, c, g, t), sel4(j, 0.0, t / (c + t), 0.0, 0.0 - t / (c + t)), sel4(j, g / (a + g), 0.0, 0.0 - g / (a + g), 0.0), sel4(j, a * (c + t) / (a + g), 0.0 - c, g * (c + t) / (a + g), 0.0 - t))
+//@ pure func f84mR(i int, j int, a real, c real, g real, t real) real = sel4(i, sel4(j, 1.0, 0.0, 1.0, 1.0), sel4(j, 1.0, 1.0, 0.0, 0.0 - (a + g) / (c + t)), sel4(j, 1.0, 0.0, 0.0 - a / g, 1.0), sel4(j, 1.0, 0.0 - c / t, 0.0, 0.0 - (a + g) / (c + t)))
+//@ pure func f84mLR(i int, j int, a real, c real, g real, t real) real = f84mL(i, 0, a, c, g, t) * f84mR(0, j, a, c, g, t) + f84mL(i, 1, a, c, g, t) * f84mR(1, j, a, c, g, t) + f84mL(i, 2, a, c, g, t) * f84mR(2, j, a, c, g, t) + f84mL(i, 3, a, c, g, t) * f84mR(3, j, a, c, g, t)
+// R diag(d0..d3) L
+//@ pure func f84mRXL(i int, j int, a real, c real, g real, t real, d0 real, d1 real, d2 real, d3 real) real = f84mR(i, 0, a, c, g, t) * d0 * f84mL(0, j, a, c, g, t) + f84mR(i, 1, a, c, g, t) * d1 * f84mL(1, j, a, c, g, t) + f84mR(i, 2, a, c, g, t) * d2 * f84mL(2, j, a, c, g, t) + f84mR(i, 3, a, c, g, t) * d3 * f84mL(3, j, a, c, g, t)
+
+//@ func (*F84Model).Eigens
+//@   props C18 C19
+//@   requires m != nil && simplex(m.piA, m.piC, m.piG, m.piT) && m.kappa >= 0.0
+//@   ensures err == nil && len(val) == 4 && msq(leftvectors, 4) && msq(rightvectors, 4)
+//@   ensures forall k :: in4(k) ==> val[k] == f84mVal(k, m.piA, m.piC, m.piG, m.piT, m.kappa)
+//@   ensures forall x, y :: in4(x) && in4(y) ==> mel(leftvectors, x, y) == f84mL(x, y, m.piA, m.piC, m.piG, m.piT)
+//@   ensures forall x, y :: in4(x) && in4(y) ==> mel(rightvectors, x, y) == f84mR(x, y, m.piA, m.piC, m.piG, m.piT)
+//@   ensures fresh(val) && fresh(leftvectors) && fresh(rightvectors)
+//@   modifies nothing
+
+//@ func (*F84Model).InitModel
+//@   props C18
+//@   requires m != nil
+//@   ensures m.kappa == kappa && m.piA == piA && m.piC == piC && m.piG == piG && m.piT == piT
+//@   modifies m.kappa, m.piA, m.piC, m.piG, m.piT
+
+//@ lemma f84_LR(i int, j int, a real, c real, g real, t real)
+//@   props C18
+//@   cases i 0 3
+//@   cases j 0 3
+//@   requires simplex(a, c, g, t)
+//@   ensures f84mLR(i, j, a, c, g, t) == (i == j ? 1.0 : 0.0)
+//@ lemma f84_RDL(i int, j int, a real, c real, g real, t real, kappa real)
+//@   props C18
+//@   cases i 0 3
+//@   cases j 0 3
+//@   requires simplex(a, c, g, t) && kappa >= 0.0
+//@   ensures f84mRXL(i, j, a, c, g, t, f84mVal(0, a, c, g, t, kappa), f84mVal(1, a, c, g, t, kappa), f84mVal(2, a, c, g, t, kappa), f84mVal(3, a, c, g, t, kappa)) == f84mQ(i, j, a, c, g, t, kappa)
+//@ lemma f84_rate_matrix(i int, j int, a real, c real, g real, t real, kappa real)
+//@   props C18
+//@   cases i 0 3
+//@   cases j 0 3
+//@   requires simplex(a, c, g, t) && kappa >= 0.0
+//@   ensures f84mMu(a, c, g, t, kappa) > 0.0
+//@   ensures f84mQ(i, 0, a, c, g, t, kappa) + f84mQ(i, 1, a, c, g, t, kappa) + f84mQ(i, 2, a, c, g, t, kappa) + f84mQ(i, 3, a, c, g, t, kappa) == 0.0
+//@   ensures 0.0 - (a * f84mQ(0, 0, a, c, g, t, kappa) + c * f84mQ(1, 1, a, c, g, t, kappa) + g * f84mQ(2, 2, a, c, g, t, kappa) + t * f84mQ(3, 3, a, c, g, t, kappa)) == 1.0
+//@   ensures pi4(i, a, c, g, t) * f84mQ(i, j, a, c, g, t, kappa) == pi4(j, a, c, g, t) * f84mQ(j, i, a, c, g, t, kappa)
+//@   ensures i != j ==> f84mQ(i, j, a, c, g, t, kappa) > 0.0
+
+// F84 transition probabilities P(bl) = R exp(D bl) L as assembled by models.Pij.SetLength, written over the two
+// distinct exponentials e1 = exp(val[1] bl) = exp(val[2] bl), e2 = exp(val[3] bl) (val[0] = 0)
+//@ pure func f84mEP(i int, j int, a real, c real, g real, t real, e1 real, e2 real) real = f84mRXL(i, j, a, c, g, t, 1.0, e1, e1, e2)
+//@ pure func f84mP(i int, j int, a real, c real, g real, t real, kappa real, bl real) real = f84mRXL(i, j, a, c, g, t, exp(f84mVal(0, a, c, g, t, kappa) * bl), exp(f84mVal(1, a, c, g, t, kappa) * bl), exp(f84mVal(2, a, c, g, t, kappa) * bl), exp(f84mVal(3, a, c, g, t, kappa) * bl))
+//@ lemma f84_P_is_EP(i int, j int, a real, c real, g real, t real, kappa real, bl real)
+//@   props C18
+//@   cases i 0 3
+//@   cases j 0 3
+//@   requires simplex(a, c, g, t) && kappa >= 0.0
+//@   ensures f84mP(i, j, a, c, g, t, kappa, bl) == f84mEP(i, j, a, c, g, t, exp(f84mVal(1, a, c, g, t, kappa) * bl), exp(f84mVal(3, a, c, g, t, kappa) * bl))
+//@   ensures f84mVal(1, a, c, g, t, kappa) <= f84mVal(3, a, c, g, t, kappa) && f84mVal(3, a, c, g, t, kappa) < 0.0
+//@ lemma f84_stochastic(i int, j int, a real, c real, g real, t real, e1 real, e2 real)
+//@   props C18
+//@   cases i 0 3
+//@   cases j 0 3
+//@   requires simplex(a, c, g, t)
+//@   ensures f84mEP(i, 0, a, c, g, t, e1, e2) + f84mEP(i, 1, a, c, g, t, e1, e2) + f84mEP(i, 2, a, c, g, t, e1, e2) + f84mEP(i, 3, a, c, g, t, e1, e2) == 1.0
+//@   ensures 0.0 <= e1 && e1 <= e2 && e2 <= 1.0 ==> 0.0 <= f84mEP(i, j, a, c, g, t, e1, e2) && f84mEP(i, j, a, c, g, t, e1, e2) <= 1.0
+//@   ensures f84mEP(i, j, a, c, g, t, 1.0, 1.0) == (i == j ? 1.0 : 0.0)
+//@   ensures pi4(i, a, c, g, t) * f84mEP(i, j, a, c, g, t, e1, e2) == pi4(j, a, c, g, t) * f84mEP(j, i, a, c, g, t, e1, e2)
+//@   ensures 0.0 <= e1 && 0.0 <= e2 ==> abs(f84mEP(i, j, a, c, g, t, e1, e2) - pi4(j, a, c, g, t)) <= e1 + e2
+//@ lemma f84_semigroup(i int, j int, a real, c real, g real, t real, e1 real, e2 real, f1 real, f2 real)
+//@   props C18
+//@   cases i 0 3
+//@   cases j 0 3
+//@   requires simplex(a, c, g, t)
+//@   ensures f84mEP(i, j, a, c, g, t, e1 * f1, e2 * f2) == f84mEP(i, 0, a, c, g, t, e1, e2) * f84mEP(0, j, a, c, g, t, f1, f2) + f84mEP(i, 1, a, c, g, t, e1, e2) * f84mEP(1, j, a, c, g, t, f1, f2) + f84mEP(i, 2, a, c, g, t, e1, e2) * f84mEP(2, j, a, c, g, t, f1, f2) + f84mEP(i, 3, a, c, g, t, e1, e2) * f84mEP(3, j, a, c, g, t, f1, f2)
+//@ lemma f84_range(i int, j int, a real, c real, g real, t real, kappa real, bl real)
+//@   props C18
+//@   cases i 0 3
+//@   cases j 0 3
+//@   requires simplex(a, c, g, t) && kappa >= 0.0 && bl >= 0.0
+//@   ensures 0.0 <= f84mP(i, j, a, c, g, t, kappa, bl) && f84mP(i, j, a, c, g, t, kappa, bl) <= 1.0
+
+// ---- F81 (Felsenstein 1981; Yang 2006 table 1.1): q_ij = pi_j, normalised by mu = -sum_i pi_i q_ii ----
+//@ pure func f81mU(i int, j int, a real, c real, g real, t real) real = (i == j ? 0.0 - (a + c + g + t - pi4(i, a, c, g, t)) : pi4(j, a, c, g, t))
+//@ pure func f81mMu(a real, c real, g real, t real) real = 0.0 - (a * f81mU(0, 0, a, c, g, t) + c * f81mU(1, 1, a, c, g, t) + g * f81mU(2, 2, a, c, g, t) + t * f81mU(3, 3, a, c, g, t))
+
+//@ func (*F81Model).InitModel
+//@   props C18
+//@   requires m != nil && simplex(piA, piC, piG, piT)
+//@   ensures err == nil ==> len(m.val) == 4 && msq(m.leigenvect, 4) && msq(m.reigenvect, 4)
+//@   modifies m.qmatrix, m.leigenvect, m.reigenvect, m.val
+// the matrix handed to Apply (and from there to the eigen solver) is the textbook rate matrix, and the closure divides by mu > 0
+//@   assert_at gonum.org/v1/gonum/mat.(*Dense).Apply 1 : forall x, y :: in4(x) && in4(y) ==> mel(m.qmatrix, x, y) == f81mU(x, y, piA, piC, piG, piT)
+//@   assert_at gonum.org/v1/gonum/mat.(*Dense).Apply 1 : arg0 == m.qmatrix && msq(m.qmatrix, 4) && norm == f81mMu(piA, piC, piG, piT) && norm > 0.0
+//@ func (*F81Model).InitModel$1
+//@   props C18
+//@   requires norm != 0.0
+//@   ensures result == v / norm
+//@   modifies nothing
+
+// computeEigens hands m.qmatrix to gonum's mat.Eigen (Factorize, Values, VectorsTo) and inverts the eigenvector
+// matrix (Dense.Inverse); complex eigenvalues are truncated to their real parts. NOT VERIFIED (complex128 and the
+// LAPACK routines are outside the verifier): the contract below is the ASSUMED numerical behaviour of the
+// decomposition for the diagonalisable rate matrices of reversible models (real spectrum): L R = I, R D L = Q.
+//@ pure func eigLR(l *mat.Dense, r *mat.Dense, i int, j int) real = mel(l, i, 0) * mel(r, 0, j) + mel(l, i, 1) * mel(r, 1, j) + mel(l, i, 2) * mel(r, 2, j) + mel(l, i, 3) * mel(r, 3, j)
+//@ pure func eigRDL(r *mat.Dense, val []float64, l *mat.Dense, i int, j int) real = mel(r, i, 0) * val[0] * mel(l, 0, j) + mel(r, i, 1) * val[1] * mel(l, 1, j) + mel(r, i, 2) * val[2] * mel(l, 2, j) + mel(r, i, 3) * val[3] * mel(l, 3, j)
+//@ func (*F81Model).computeEigens
+//@   props C18
+//@   trusted gonum mat.Eigen / Dense.Inverse (LAPACK dgeev, dgetri) on a real-diagonalisable 4x4 rate matrix
+//@   requires m != nil && msq(m.qmatrix, 4)
+//@   ensures err == nil ==> len(m.val) == 4 && msq(m.leigenvect, 4) && msq(m.reigenvect, 4) && fresh(m.val) && fresh(m.leigenvect) && fresh(m.reigenvect)
+//@   ensures err == nil ==> forall i, j :: in4(i) && in4(j) ==> eigLR(m.leigenvect, m.reigenvect, i, j) == (i == j ? 1.0 : 0.0) && eigRDL(m.reigenvect, m.val, m.leigenvect, i, j) == mel(m.qmatrix, i, j)
+//@   ensures err != nil ==> m.val == old(m.val) && m.leigenvect == old(m.leigenvect) && m.reigenvect == old(m.reigenvect)
+//@   modifies m.leigenvect, m.reigenvect, m.val
+
+//@ func (*F81Model).Eigens
+//@   props C18 C19
+//@   requires m != nil
+//@   ensures err == nil && sameslice(val, m.val) && leftvectors == m.leigenvect && rightvectors == m.reigenvect
+//@   modifies nothing
+
+// ---- TN93 (Tamura & Nei 1993; Yang 2006 table 1.1): q_ij = k1 pi_j for A<->G, k2 pi_j for C<->T, pi_j for transversions ----
+//@ pure func tn93U0(i int, j int, a real, c real, g real, t real, k1 real, k2 real) real = (isTs(i, j) ? ((i == 0 || i == 2) ? k1 : k2) * pi4(j, a, c, g, t) : pi4(j, a, c, g, t))
+//@ pure func tn93Off(i int, a real, c real, g real, t real, k1 real, k2 real) real = (i == 0 ? 0.0 : tn93U0(i, 0, a, c, g, t, k1, k2)) + (i == 1 ? 0.0 : tn93U0(i, 1, a, c, g, t, k1, k2)) + (i == 2 ? 0.0 : tn93U0(i, 2, a, c, g, t, k1, k2)) + (i == 3 ? 0.0 : tn93U0(i, 3, a, c, g, t, k1, k2))
+//@ pure func tn93U(i int, j int, a real, c real, g real, t real, k1 real, k2 real) real = (i == j ? 0.0 - tn93Off(i, a, c, g, t, k1, k2) : tn93U0(i, j, a, c, g, t, k1, k2))
+//@ pure func tn93Mu(a real, c real, g real, t real, k1 real, k2 real) real = a * tn93Off(0, a, c, g, t, k1, k2) + c * tn93Off(1, a, c, g, t, k1, k2) + g * tn93Off(2, a, c, g, t, k1, k2) + t * tn93Off(3, a, c, g, t, k1, k2)
+
+//@ func (*TN93Model).InitModel
+//@   props C18
+//@   requires m != nil && simplex(piA, piC, piG, piT) && kappa1 > 0.0 && kappa2 > 0.0
+//@   ensures err == nil ==> len(m.val) == 4 && msq(m.leigenvect, 4) && msq(m.reigenvect, 4)
+//@   modifies m.qmatrix, m.leigenvect, m.reigenvect, m.val
+//@   assert_at gonum.org/v1/gonum/mat.(*Dense).Apply 1 : forall x, y :: in4(x) && in4(y) ==> mel(m.qmatrix, x, y) == tn93U(x, y, piA, piC, piG, piT, kappa1, kappa2)
+//@   assert_at gonum.org/v1/gonum/mat.(*Dense).Apply 1 : arg0 == m.qmatrix && msq(m.qmatrix, 4) && norm == tn93Mu(piA, piC, piG, piT, kappa1, kappa2) && norm > 0.0
+//@ func (*TN93Model).InitModel$1
+//@   props C18
+//@   requires norm != 0.0
+//@   ensures result == v / norm
+//@   modifies nothing
+//@ func (*TN93Model).computeEigens
+//@   props C18
+//@   trusted gonum mat.Eigen / Dense.Inverse (LAPACK dgeev, dgetri) on a real-diagonalisable 4x4 rate matrix
+//@   requires m != nil && msq(m.qmatrix, 4)
+//@   ensures err == nil ==> len(m.val) == 4 && msq(m.leigenvect, 4) && msq(m.reigenvect, 4) && fresh(m.val) && fresh(m.leigenvect) && fresh(m.reigenvect)
+//@   ensures err == nil ==> forall i, j :: in4(i) && in4(j) ==> eigLR(m.leigenvect, m.reigenvect, i, j) == (i == j ? 1.0 : 0.0) && eigRDL(m.reigenvect, m.val, m.leigenvect, i, j) == mel(m.qmatrix, i, j)
+//@   ensures err != nil ==> m.val == old(m.val) && m.leigenvect == old(m.leigenvect) && m.reigenvect == old(m.reigenvect)
+//@   modifies m.leigenvect, m.reigenvect, m.val
+
+//@ func (*TN93Model).Eigens
+//@   props C18 C19
+//@   requires m != nil
+//@   ensures err == nil && sameslice(val, m.val) && leftvectors == m.leigenvect && rightvectors == m.reigenvect
+//@   modifies nothing
+
+// ---- GTR / REV (Tavare 1986; Yang 2006 eq. 1.62): q_ij = s_ij pi_j with symmetric exchangeabilities
+// ---- s_AC = d, s_AG = f, s_AT = b, s_CG = e, s_CT = a, s_GT = c (the parameter names of the code) ----
+//@ pure func gtrS(i int, j int, d real, f real, b real, e real, a real, c real) real = sel4(i, sel4(j, 0.0, d, f, b), sel4(j, d, 0.0, e, a), sel4(j, f, e, 0.0, c), sel4(j, b, a, c, 0.0))
+//@ pure func gtrOff(i int, d real, f real, b real, e real, a real, c real, pa real, pc real, pg real, pt real) real = gtrS(i, 0, d, f, b, e, a, c) * pa + gtrS(i, 1, d, f, b, e, a, c) * pc + gtrS(i, 2, d, f, b, e, a, c) * pg + gtrS(i, 3, d, f, b, e, a, c) * pt
+//@ pure func gtrU(i int, j int, d real, f real, b real, e real, a real, c real, pa real, pc real, pg real, pt real) real = (i == j ? 0.0 - gtrOff(i, d, f, b, e, a, c, pa, pc, pg, pt) : gtrS(i, j, d, f, b, e, a, c) * pi4(j, pa, pc, pg, pt))
+//@ pure func gtrMu(d real, f real, b real, e real, a real, c real, pa real, pc real, pg real, pt real) real = pa * gtrOff(0, d, f, b, e, a, c, pa, pc, pg, pt) + pc * gtrOff(1, d, f, b, e, a, c, pa, pc, pg, pt) + pg * gtrOff(2, d, f, b, e, a, c, pa, pc, pg, pt) + pt * gtrOff(3, d, f, b, e, a, c, pa, pc, pg, pt)
+//@ pure func gtrRates(d real, f real, b real, e real, a real, c real) bool = d > 0.0 && f > 0.0 && b > 0.0 && e > 0.0 && a > 0.0 && c > 0.0
+
+//@ func (*GTRModel).InitModel
+//@   props C18
+//@   requires m != nil && simplex(piA, piC, piG, piT) && gtrRates(d, f, b, e, a, c)
+//@   ensures err == nil ==> len(m.val) == 4 && msq(m.leigenvect, 4) && msq(m.reigenvect, 4)
+//@   modifies m.qmatrix, m.leigenvect, m.reigenvect, m.val
+//@   assert_at gonum.org/v1/gonum/mat.(*Dense).Apply 1 : forall x, y :: in4(x) && in4(y) ==> mel(m.qmatrix, x, y) == gtrU(x, y, d, f, b, e, a, c, piA, piC, piG, piT)
+//@   assert_at gonum.org/v1/gonum/mat.(*Dense).Apply 1 : arg0 == m.qmatrix && msq(m.qmatrix, 4) && norm == gtrMu(d, f, b, e, a, c, piA, piC, piG, piT) && norm > 0.0
+//@ func (*GTRModel).InitModel$1
+//@   props C18
+//@   requires norm != 0.0
+//@   ensures result == v / norm
+//@   modifies nothing
+//@ func (*GTRModel).computeEigens
+//@   props C18
+//@   trusted gonum mat.Eigen / Dense.Inverse (LAPACK dgeev, dgetri) on a real-diagonalisable 4x4 rate matrix
+//@   requires m != nil && msq(m.qmatrix, 4)
+//@   ensures err == nil ==> len(m.val) == 4 && msq(m.leigenvect, 4) && msq(m.reigenvect, 4) && fresh(m.val) && fresh(m.leigenvect) && fresh(m.reigenvect)
+//@   ensures err == nil ==> forall i, j :: in4(i) && in4(j) ==> eigLR(m.leigenvect, m.reigenvect, i, j) == (i == j ? 1.0 : 0.0) && eigRDL(m.reigenvect, m.val, m.leigenvect, i, j) == mel(m.qmatrix, i, j)
+//@   ensures err != nil ==> m.val == old(m.val) && m.leigenvect == old(m.leigenvect) && m.reigenvect == old(m.reigenvect)
+//@   modifies m.leigenvect, m.reigenvect, m.val
+
+//@ func (*GTRModel).Eigens
+//@   props C18 C19
+//@   requires m != nil
+//@   ensures err == nil && sameslice(val, m.val) && leftvectors == m.leigenvect && rightvectors == m.reigenvect
+//@   modifies nothing
+
+// the three textbook rate matrices are proper reversible generators: rows sum to 0, off-diagonal rates positive,
+// detailed balance pi_i q_ij = pi_j q_ji, and the normalising constant mu = -sum pi_i q_ii is positive
+//@ lemma f81_rate_matrix(i int, j int, a real, c real, g real, t real)
+//@   props C18
+//@   cases i 0 3
+//@   cases j 0 3
+//@   requires simplex(a, c, g, t)
+//@   ensures f81mMu(a, c, g, t) > 0.0 && f81mMu(a, c, g, t) == 1.0 - a * a - c * c - g * g - t * t
+//@   ensures f81mU(i, 0, a, c, g, t) + f81mU(i, 1, a, c, g, t) + f81mU(i, 2, a, c, g, t) + f81mU(i, 3, a, c, g, t) == 0.0
+//@   ensures pi4(i, a, c, g, t) * f81mU(i, j, a, c, g, t) == pi4(j, a, c, g, t) * f81mU(j, i, a, c, g, t)
+//@   ensures i != j ==> f81mU(i, j, a, c, g, t) > 0.0
+//@ lemma tn93_rate_matrix(i int, j int, a real, c real, g real, t real, k1 real, k2 real)
+//@   props C18
+//@   cases i 0 3
+//@   cases j 0 3
+//@   requires simplex(a, c, g, t) && k1 > 0.0 && k2 > 0.0
+//@   ensures tn93Mu(a, c, g, t, k1, k2) > 0.0
+//@   ensures tn93U(i, 0, a, c, g, t, k1, k2) + tn93U(i, 1, a, c, g, t, k1, k2) + tn93U(i, 2, a, c, g, t, k1, k2) + tn93U(i, 3, a, c, g, t, k1, k2) == 0.0
+//@   ensures pi4(i, a, c, g, t) * tn93U(i, j, a, c, g, t, k1, k2) == pi4(j, a, c, g, t) * tn93U(j, i, a, c, g, t, k1, k2)
+//@   ensures i != j ==> tn93U(i, j, a, c, g, t, k1, k2) > 0.0
+//@   ensures tn93Mu(a, c, g, t, k1, k2) == 0.0 - (a * tn93U(0, 0, a, c, g, t, k1, k2) + c * tn93U(1, 1, a, c, g, t, k1, k2) + g * tn93U(2, 2, a, c, g, t, k1, k2) + t * tn93U(3, 3, a, c, g, t, k1, k2))
+//@ lemma gtr_rate_matrix(i int, j int, d real, f real, b real, e real, a real, c real, pa real, pc real, pg real, pt real)
+//@   props C18
+//@   cases i 0 3
+//@   cases j 0 3
+//@   requires simplex(pa, pc, pg, pt) && gtrRates(d, f, b, e, a, c)
+//@   ensures gtrMu(d, f, b, e, a, c, pa, pc, pg, pt) > 0.0
+//@   ensures gtrU(i, 0, d, f, b, e, a, c, pa, pc, pg, pt) + gtrU(i, 1, d, f, b, e, a, c, pa, pc, pg, pt) + gtrU(i, 2, d, f, b, e, a, c, pa, pc, pg, pt) + gtrU(i, 3, d, f, b, e, a, c, pa, pc, pg, pt) == 0.0
+//@   ensures pi4(i, pa, pc, pg, pt) * gtrU(i, j, d, f, b, e, a, c, pa, pc, pg, pt) == pi4(j, pa, pc, pg, pt) * gtrU(j, i, d, f, b, e, a, c, pa, pc, pg, pt)
+//@   ensures i != j ==> gtrU(i, j, d, f, b, e, a, c, pa, pc, pg, pt) > 0.0
+//@   ensures gtrMu(d, f, b, e, a, c, pa, pc, pg, pt) == 0.0 - (pa * gtrU(0, 0, d, f, b, e, a, c, pa, pc, pg, pt) + pc * gtrU(1, 1, d, f, b, e, a, c, pa, pc, pg, pt) + pg * gtrU(2, 2, d, f, b, e, a, c, pa, pc, pg, pt) + pt * gtrU(3, 3, d, f, b, e, a, c, pa, pc, pg, pt))
+
+
+// ---- the constant queries of the six models (dimension 4; JC69 and K80 are analytical, the others go through Eigens) ----
+//@ func (*JCModel).NState
+//@   props C18 C19
+//@   ensures result == 4
+//@   modifies nothing
+//@ func (*JCModel).Analytical
+//@   props C18 C19
+//@   ensures result == true
+//@   modifies nothing
+//@ func (*K2PModel).NState
+//@   props C18 C19
+//@   ensures result == 4
+//@   modifies nothing
+//@ func (*K2PModel).Analytical
+//@   props C18 C19
+//@   ensures result == true
+//@   modifies nothing
+//@ func (*F81Model).NState
+//@   props C18 C19
+//@   ensures result == 4
+//@   modifies nothing
+//@ func (*F81Model).Analytical
+//@   props C18 C19
+//@   ensures result == false
+//@   modifies nothing
+//@ func (*F81Model).Pij
+//@   props C18 C19
+//@   ensures result == 0.0 - 1.0
+//@   modifies nothing
+//@ func (*F84Model).NState
+//@   props C18 C19
+//@   ensures result == 4
+//@   modifies nothing
+//@ func (*F84Model).Analytical
+//@   props C18 C19
+//@   ensures result == false
+//@   modifies nothing
+//@ func (*F84Model).Pij
+//@   props C18 C19
+//@   ensures result == 0.0 - 1.0
+//@   modifies nothing
+//@ func (*TN93Model).NState
+//@   props C18 C19
+//@   ensures result == 4
+//@   modifies nothing
+//@ func (*TN93Model).Analytical
+//@   props C18 C19
+//@   ensures result == false
+//@   modifies nothing
+//@ func (*TN93Model).Pij
+//@   props C18 C19
+//@   ensures result == 0.0 - 1.0
+//@   modifies nothing
+//@ func (*GTRModel).NState
+//@   props C18 C19
+//@   ensures result == 4
+//@   modifies nothing
+//@ func (*GTRModel).Analytical
+//@   props C18 C19
+//@   ensures result == false
+//@   modifies nothing
+//@ func (*GTRModel).Pij
+//@   props C18 C19
+//@   ensures result == 0.0 - 1.0
+//@   modifies nothing
